@@ -14,6 +14,7 @@
 
 
 def _install():
+    import types
     from crosshair.core import _PATCH_REGISTRATIONS, NoTracing
     from crosshair.libimpl import builtinslib as B
     from crosshair.util import CrossHairValue
@@ -41,10 +42,16 @@ def _install():
                 # plain builtins only: an object with a user-defined __int__ (jaqalpaq's Constant) may
                 # hold symbolic state and must be converted under tracing
                 return int(*a, **k)
+            elif len(a) == 1 and not k and isinstance(getattr(type(a[0]), "__int__", None), types.FunctionType):
+                # an object with a Python-level __int__ (jaqalpaq's Constant): run it under tracing, its
+                # fields may be symbolic (CrossHair's own patch would call it natively)
+                mode = 2
             else:
                 mode = 0
         if mode == 1:
             return a[0].__int__()
+        if mode == 2:
+            return type(a[0]).__int__(a[0])
         return _orig_int(*a, **k)
 
     _PATCH_REGISTRATIONS[int] = _int2
